@@ -81,9 +81,11 @@ class Indentation(afmformats.AFMForceDistance):
             fp = self.fit_properties
             # Reset fit properties
             fp.reset()
-            # Set preprocessing options
-            fp["preprocessing"] = preprocessing
-            fp["preprocessing_options"] = options
+            # Forget the previous preprocessing pipeline. The new one is
+            # remembered only after it has been applied successfully, so
+            # that a rejected request is not mistaken for an applied one.
+            fp.pop("preprocessing", None)
+            fp.pop("preprocessing_options", None)
             # Reset rating
             self._rating = None
             # Apply preprocessing
@@ -92,6 +94,9 @@ class Indentation(afmformats.AFMForceDistance):
                                     identifiers=preprocessing,
                                     options=options,
                                     ret_details=ret_details)
+            # Set preprocessing options
+            fp["preprocessing"] = preprocessing
+            fp["preprocessing_options"] = options
             self._preprocessing_details = details
             # Check availability of axes
             for ax in ["x_axis", "y_axis"]:
